@@ -881,6 +881,32 @@ def baseline_attrs():
     return out
 
 
+def _rewrite_super(tree):
+    """In a class with exactly one base, `super().m(a)` / `super(C, self).m(a)` inside a method whose first
+    parameter is `self` is the call `Base.m(self, a)` (single inheritance: the next class in the MRO is the base)."""
+    count = 0
+    for cls in [x for x in ast.walk(tree) if isinstance(x, ast.ClassDef)]:
+        if len(cls.bases) != 1 or not isinstance(cls.bases[0], (ast.Name, ast.Attribute)) or cls.keywords:
+            continue
+        for m in [x for x in cls.body if isinstance(x, ast.FunctionDef)]:
+            if not m.args.args or m.args.args[0].arg != "self" or m.decorator_list:
+                continue
+            if any(isinstance(x, ast.Name) and x.id == "self" and isinstance(x.ctx, (ast.Store, ast.Del)) for x in ast.walk(m)):
+                continue
+            for c in [x for x in ast.walk(m) if isinstance(x, ast.Call)]:
+                f = c.func
+                if isinstance(f, ast.Attribute) and isinstance(f.value, ast.Call) and isinstance(f.value.func, ast.Name) \
+                        and f.value.func.id == "super" and not f.value.keywords:
+                    sa = f.value.args
+                    if sa and not (len(sa) == 2 and isinstance(sa[0], ast.Name) and sa[0].id == cls.name
+                                   and isinstance(sa[1], ast.Name) and sa[1].id == "self"):
+                        continue
+                    f.value = _clone(cls.bases[0])
+                    c.args.insert(0, ast.Name(id="self", ctx=ast.Load()))
+                    count += 1
+    return count
+
+
 _SIB = {}
 _PARSED = {}
 
@@ -891,6 +917,7 @@ def _parsed_file(path):
         try:
             with open(path, "r", encoding="utf-8", errors="replace") as f:
                 _PARSED[path] = ast.parse(f.read())
+            _rewrite_super(_PARSED[path])        # (sibling scans look for `Base.__init__(self, ...)` calls)
         except (OSError, SyntaxError):
             _PARSED[path] = None
     return _PARSED[path]
@@ -1093,27 +1120,7 @@ class Evolve:
 
     # -- super()
     def super_calls(self):
-        """In a class with exactly one base, `super().m(a)` / `super(C, self).m(a)` inside a method whose first
-        parameter is `self` is the call `Base.m(self, a)` (single inheritance: the next class in the MRO is the base)."""
-        for cls in [x for x in ast.walk(self.tree) if isinstance(x, ast.ClassDef)]:
-            if len(cls.bases) != 1 or not isinstance(cls.bases[0], (ast.Name, ast.Attribute)) or cls.keywords:
-                continue
-            for m in [x for x in cls.body if isinstance(x, ast.FunctionDef)]:
-                if not m.args.args or m.args.args[0].arg != "self" or m.decorator_list:
-                    continue
-                if any(isinstance(x, ast.Name) and x.id == "self" and isinstance(x.ctx, (ast.Store, ast.Del)) for x in ast.walk(m)):
-                    continue
-                for c in [x for x in ast.walk(m) if isinstance(x, ast.Call)]:
-                    f = c.func
-                    if isinstance(f, ast.Attribute) and isinstance(f.value, ast.Call) and isinstance(f.value.func, ast.Name) \
-                            and f.value.func.id == "super" and not f.value.keywords:
-                        sa = f.value.args
-                        if sa and not (len(sa) == 2 and isinstance(sa[0], ast.Name) and sa[0].id == cls.name
-                                       and isinstance(sa[1], ast.Name) and sa[1].id == "self"):
-                            continue
-                        f.value = _clone(cls.bases[0])
-                        c.args.insert(0, ast.Name(id="self", ctx=ast.Load()))
-                        self.count += 1
+        self.count += _rewrite_super(self.tree)
 
     # -- attributes introduced later that only ever hold one constant
     def new_attr_constants(self):
